@@ -609,9 +609,11 @@ class StateTables(Task):
     qual = CF + "Chef.set_global_sarrays"
     inline = ("amr_kitchen.plotfile_cooker.PlotfileCooker.unique_box_shapes",)
 
-    def __init__(self, boxes, limit):
-        self.boxes, self.limit = boxes, limit
-        self.name = f"Chef.set_global_sarrays[{boxes};limit={limit}]"
+    def __init__(self, boxes, limit, stale=False):
+        """stale: the module tables still hold what an EARLIER Chef of this process left there (another gas, another pressure,
+        for one of this plotfile's box shapes and for a foreign shape): the tables a cook uses depend on its own arguments only"""
+        self.boxes, self.limit, self.stale = boxes, limit, stale
+        self.name = f"Chef.set_global_sarrays[{boxes};limit={limit}" + (";tables left by an earlier Chef]" if stale else "]")
 
     def setup(self, ex):
         from pyvc.exec import LIBS
@@ -626,6 +628,14 @@ class StateTables(Task):
         cells = [{"indexes": [[Vec(list(lo), "array"), Vec(list(hi), "array")] for lo, hi in lv]} for lv in self.boxes]
         P = z3.Real("P")
         self_ = Record(CF + "Chef", cells=cells, limit_level=self.limit, gas=gas, P=P)
+        if self.stale:
+            lo, hi = self.boxes[0][0]
+            shp = tuple(h - l + 1 for l, h in zip(lo, hi))
+            old_gas, old_p = Record("Gas"), z3.Real("P_of_the_earlier_Chef")
+            ex.globals_model[(CF[:-1], "SARRAYS")] = {shp: Record("SolutionArray", gas=old_gas, shape=shp),
+                                                       (99, 1, 1): Record("SolutionArray", gas=old_gas, shape=(99, 1, 1))}
+            ex.globals_model[(CF[:-1], "PRESSURES")] = {shp: NDArray(list(shp), lambda ix: old_p, "f8"),
+                                                        (99, 1, 1): NDArray([99, 1, 1], lambda ix: old_p, "f8")}
         return {"self": self_, "args": [], "gas": gas, "P": P}
 
     def post(self, ex, inp, out):
@@ -646,11 +656,15 @@ class StateTables(Task):
         good = True
         for k, v in sa.items():
             kk = tuple(as_const(x) if is_z3(x) else x for x in k)
+            if kk not in shapes:
+                continue        # (an entry for a shape no box of this plotfile has is never looked up)
             good = good and isinstance(v, Record) and v.cls == "SolutionArray" and v.attrs["gas"] is inp["gas"] and \
                 tuple(as_const(x) if is_z3(x) else x for x in ex.as_iterable(v.attrs["shape"])) == kk
         ctx.oblige("post.solution-array-of-its-own-shape", good, "P")
         for k, v in pr.items():
             kk = tuple(as_const(x) if is_z3(x) else x for x in k)
+            if kk not in shapes:
+                continue
             okp = isinstance(v, NDArray) and [as_const(x) if is_z3(x) else x for x in v.shape] == list(kk)
             ctx.oblige(f"post.pressure-table{list(kk)}", veq(ctx, v, NDArray(list(kk), lambda ix: inp["P"])) if okp else False, "P")
 
@@ -671,6 +685,7 @@ def init_tasks(tier):
             RecipeDispatch("RRi", reactions=[7, 2, 11]), RecipeDispatch("SRi", species=["H2"], reactions=[3]), RecipeDispatch("XYZ")]
     out += [StateTables([[((0, 0, 0), (7, 7, 7)), ((8, 0, 0), (15, 7, 3))], [((0, 0, 0), (15, 15, 15)), ((16, 0, 0), (23, 7, 7))]], 1),
             StateTables([[((0, 0, 0), (7, 7, 7))], [((4, 4, 4), (11, 7, 5))]], 0),
+            StateTables([[((0, 0, 0), (7, 7, 7)), ((8, 0, 0), (15, 7, 3))], [((0, 0, 0), (15, 15, 15))]], 1, stale=True),
             StateTables([[((0, 0, 0), (3, 7, 7)), ((4, 0, 0), (7, 7, 7)), ((8, 0, 0), (10, 7, 7))]], 0)]
     F = ["rho", "Y(H2)", "Y(O2)", "Y(N2)", "temp"]
     out += [ThermoIndices(F, ["H2", "O2", "N2"], "SRi", ["N2", "H2"]), ThermoIndices(F, ["H2", "O2", "N2"], "SDi", ["O2"]),
